@@ -306,6 +306,17 @@ func TestC02Schemes(t *testing.T) {
 					long := ctx + strings.Repeat("c", 256-len(ctx)+rapid.IntRange(0, 3).Draw(t, "over"))
 					ol := &sign.SignatureOpts{Context: long}
 					expectReject(t, sub, name, "ctx-too-long", func(m, sg []byte) bool { return s.Verify(pk, m, sg, ol) }, msg, sig, []byte(long))
+					// a one-byte length field that wraps: the signature a verifier would accept if it encoded
+					// len(ctx) mod 256 — made under the context long[:n%256] on the message long[n%256:]‖msg
+					{
+						n := 256*rapid.IntRange(1, 2).Draw(t, "wrapk") + rapid.SampledFrom([]int{0, 0, 1, 7}).Draw(t, "wrapr")
+						wl := strings.Repeat("w", n)
+						r := n % 256
+						wmsg := append([]byte(wl[r:]), msg...)
+						wsig := s.Sign(sk, wmsg, &sign.SignatureOpts{Context: wl[:r]})
+						ow := &sign.SignatureOpts{Context: wl}
+						expectReject(t, sub, name, "ctx-length-wrap", func(m, sg []byte) bool { return s.Verify(pk, m, sg, ow) }, msg, wsig, []byte(wl))
+					}
 					var sl []byte
 					p, _ := vlib.Catch(func() { sl = s.Sign(sk, msg, ol) })
 					if p == nil && sl != nil {
